@@ -401,4 +401,16 @@ example :
     ring
 
 end cbtf
+/-! ### the partition vector -/
+
+/-- ★ `bset` may come in ANY order: as long as it has no repetition and lies inside the model,
+`bset ++ locate.flippv(bset, n)` lists every model DOF exactly once, and the q-set is ascending —
+so `(bset, qset)` is a partition in the sense of `IsPartition`. -/
+theorem flippv_partitions (bset : List Nat) (n : Nat) (hnd : bset.Nodup) (hlt : ∀ i ∈ bset, i < n) :
+    (bset ++ flippv bset n).Perm (List.range n) ∧ (flippv bset n).Pairwise (· < ·) :=
+  ⟨flippv_perm bset n hnd hlt, flippv_sorted bset n⟩
+
+/-- `bset = [3, 1]` in a 5-DOF model: `qset = [0, 2, 4]` -/
+example : flippv [3, 1] 5 = [0, 2, 4] := by decide
+
 end PyYetiVerif.C15
